@@ -226,8 +226,9 @@ HIST_RULE = ("model-guided random API histories (2-14 transactions of up to 12 c
 
 def c04(ctx):
     """C04 nested ordered map: every API result and every dump of the implementation vs Spec.v.
-    Assumes: root bucket reached only through Tx methods; bucket names <= 32768 bytes; D4's domain (move into own subtree) is excluded from generation."""
-    return _hist(ctx, "c04", "none", HIST_RULE, 400, 30000, as_propfail=True)
+    Assumes: root bucket reached only through Tx methods; bucket names <= 32768 bytes. About one history in 24 ends by moving a bucket into its own subtree (known finding D4:
+    the reference refuses, the code returns nil and drops the subtree); every other disagreement is a violation."""
+    return _hist(ctx, "c04", "none", HIST_RULE, 400, 30000, as_propfail=True, extra_args=("-selfmoves",))
 
 
 def c07(ctx):
